@@ -245,6 +245,13 @@ func (d *dynUpdater) checkBackendPair(pair *backendPair) bool {
 		return updated
 	}
 
+	// old and new endpoints are paired by their targets, which cannot be done
+	// if two of them share the same one, eg two services selecting the same pod
+	if hasDuplicatedTarget(oldBack.Endpoints) || hasDuplicatedTarget(curBack.Endpoints) {
+		d.logger.InfoV(2, "backend '%s' changed and has endpoints sharing the same target", curBack.ID)
+		return false
+	}
+
 	// map endpoints of old and new config together
 	endpoints := make(map[string]*epPair, len(oldBack.Endpoints))
 	targets := make([]string, 0, len(oldBack.Endpoints))
@@ -312,6 +319,19 @@ func (d *dynUpdater) checkBackendPair(pair *backendPair) bool {
 	}
 
 	return updated
+}
+
+func hasDuplicatedTarget(endpoints []*hatypes.Endpoint) bool {
+	targets := make(map[string]bool, len(endpoints))
+	for _, endpoint := range endpoints {
+		if endpoint.Enabled {
+			if targets[endpoint.Target] {
+				return true
+			}
+			targets[endpoint.Target] = true
+		}
+	}
+	return false
 }
 
 func (d *dynUpdater) checkEndpointPair(backend *hatypes.Backend, pair *epPair) bool {
